@@ -19,6 +19,7 @@ mod c05x;
 mod c10;
 mod c11;
 mod c13;
+mod c17;
 mod c08;
 mod c09;
 mod c06;
@@ -105,6 +106,7 @@ fn main() {
         "C10" => c10::run(&cfg),
         "C11" => c11::run(&cfg),
         "C13" => c13::run(&cfg),
+        "C17" => c17::run(&cfg),
         "C06" => c06::run(&cfg),
         _ => {
             eprintln!("no check for {prop}");
